@@ -27,6 +27,7 @@ static uint32_t rnd(void)
 }
 static void rnd_fill(uint8_t *p, unsigned n) { while (n--) *p++ = (uint8_t)rnd(); }
 static long cases = 0;
+static void tools_dir_set(const char *d);
 extern int skinny_verif_backend_cap;   /* guarded hook in src/skinny-internal.c */
 static int replay_backend = -1;
 
@@ -203,10 +204,16 @@ static void fam_skinny64(int all_lengths)
 }
 
 #include "replay_more.inc"
+static void tools_dir_set(const char *d) { tools_dir = d; }
 
 int main(int argc, char **argv)
 {
     const char *fam = argc > 1 ? argv[1] : "";
+    static char dirbuf[512];
+    {   /* directory of this executable: the example tools are built next to it */
+        const char *sl = strrchr(argv[0], '/');
+        if (sl && (size_t)(sl - argv[0]) < sizeof(dirbuf)) { memcpy(dirbuf, argv[0], (size_t)(sl - argv[0])); tools_dir_set(dirbuf); }
+    }
     rng_s = 0x9E3779B97F4A7C15ULL ^ (argc > 2 ? strtoull(argv[2], 0, 0) * 0x2545F4914F6CDD1DULL : 0);
     if (!rng_s) rng_s = 1;
     if (!strcmp(fam, "skinny128")) fam_skinny128(0);
